@@ -2,6 +2,7 @@ import Driver.Cache
 import Driver.Verify
 import Driver.Jwt
 import Driver.Handler
+import Driver.Discovery
 /-! Model driver: `driver <family>` reads trace lines on stdin and prints one prediction per step. -/
 def main (args : List String) : IO UInt32 := do
   match args with
@@ -9,6 +10,7 @@ def main (args : List String) : IO UInt32 := do
   | ["verify"] => Driver.Verify.main
   | ["jwt"] => Driver.Jwt.main
   | ["handler"] => Driver.Handler.main
+  | ["discovery"] => Driver.Discovery.main
   | _ => do
     (← IO.getStderr).putStrLn "usage: driver <family>"
     return 2
